@@ -77,4 +77,13 @@ theorem gen_rangeFind (cmpAt : Nat → Ordering) (ordered : Bool) (off count : N
     have := gen_rangeFind_linear_loop cmpAt false off count (count + 1) 0 (by omega)
     simpa [findLinear, List.range_eq_range'] using this
 
+/-! ### the window of an index -/
+
+/-- `RangeTrait::get_entry` (translated on every run): relative id `k` of a window `(off, count)`
+    designates store entry `off + k` exactly when `k < count` (the bound check is the translated
+    `Idx::is_valid`); the store's own bound (`off + k < n`) is applied by `create_entry`. -/
+theorem gen_rangeGetEntry (off count k : Nat) :
+    Generated.rangeGetEntry off count k = if k < count then some (off + k) else none := by
+  simp [Generated.rangeGetEntry, Generated.idxIsValid]
+
 end Jubako
